@@ -186,7 +186,16 @@ static void run_scenario(const Scenario& sc, const string& child) {
         // R: the Subprocess object is REUSED - it first ran another child to completion (exit status 3), then the
         // scenario's child is move-assigned into it
         Subprocess sp;
-        if (sc.delay[0] == 'R') {
+        if (sc.delay[0] == 'A') {
+          // A: the object is re-assigned while its FIRST child is still running (asleep, ignoring SIGTERM): that child
+          // must be ended and reaped like a child whose object is destroyed
+          sp = Subprocess(vector<string>{child, "it", "s:100000", "x:0"});
+          int old_fds[3] = {sp.stdin_fd(), sp.stdout_fd(), sp.stderr_fd()};
+          usleep(30000);
+          sp = Subprocess(cmd);
+          for (int fd : old_fds)
+            if (fd >= 0) __real_close(fd);
+        } else if (sc.delay[0] == 'R') {
           sp = Subprocess(vector<string>{child, "x:3"});
           sp.wait();
           for (int fd : {sp.stdin_fd(), sp.stdout_fd(), sp.stderr_fd()})
@@ -330,6 +339,8 @@ int main(int argc, char** argv) {
     all.push_back({api, P{{"cat", 0}, {"rep", 0}, {"x", 0}}, 5000, false, 0, "Znone"});
     all.push_back({api, P{{"rall", 0}, {"rep", 0}, {"w1", 3000}, {"x", 0}}, 70000, false, 0, "Znone"});
   }
+  all.push_back({"communicate", P{{"cat", 0}, {"rep", 0}, {"x", 0}}, 5000, false, 0, "Anone"});
+  all.push_back({"communicate", P{{"rall", 0}, {"rep", 0}, {"w1", 70000}, {"x", 5}}, 100000, false, 0, "Anone"});
   all.push_back({"communicate", P{{"cat", 0}, {"rep", 0}, {"x", 0}}, 5000, false, 0, "Rnone"});
   all.push_back({"communicate", P{{"rall", 0}, {"rep", 0}, {"w1", 70000}, {"x", 5}}, 100000, false, 0, "Rnone"});
   // timeouts: a child that outlives the deadline is ended
